@@ -119,31 +119,35 @@ Vorticity == /\ pc = "vorticity"
                        PSub(PSub(PNeg(DivFlux(Psi(k), Chi(k), diag.absvor[k])), va[k]),
                             PScale(Rgas, Jac(Tp(k), S)))]]
              /\ pc' = "divergence" /\ UNCHANGED <<cfg, H, Hs, Hasfound, G, diag>>
-(* geopotential of the temperature deviation: G[k][j] (ImplicitSolve!GDense) is the weight of level j *)
-GeoP(k) == ASumTo([j \in 1..K |-> LTimes(G[k][j], PScale(Rgas, Tp(j)))], K)
+(* geopotential of a temperature column tpf: G[k][j] (ImplicitSolve!GDense) is the weight of level j *)
+GeoOf(tpf, k) == ASumTo([j \in 1..K |-> LTimes(G[k][j], PScale(Rgas, tpf[j]))], K)
+(* total divergence / temperature tendency for an arbitrary split  T = tr + tpf  (tr: rationals per level,
+   tpf: polynomials per level, Hm: the implicit temperature operator of tr) *)
+DivTotal(tr, tpf, k) ==
+   LET va == VecAdv(diag.wf, DivFlux)
+       plain == PSub(PSub(PSub(CurlFlux(Psi(k), Chi(k), diag.absvor[k]), va[k]),
+                          PScale(Rgas, DivFlux(PZero, S, tpf[k]))),
+                     Lap(PAdd(PAdd(Kinetic(Psi(k), Chi(k)), OroP), PScale(RMul(Rgas, tr[k]), S))))
+   IN  ASub(AOf(plain), [a \in 0..K |-> Lap(GeoOf(tpf, k)[a])])
+TempTotal(tr, tpf, Hm, k) ==
+   LET vt == VAdvP(diag.wf, tpf)
+       vr == VAdvR(diag.we, tr)
+       gpe == GPart(diag.g)
+       gpf == GPart([j \in 1..K |-> PAdd(diag.g[j], diag.delta[j])])
+       plain == PAdd(PAdd(PNeg(Advect(Psi(k), Chi(k), tpf[k])), PAdd(vt[k], vr[k])),
+                     PScale(cfg.kappa, PAdd(PScale(tr[k], diag.g[k]), PMul(tpf[k], diag.g[k]))))
+       omega == AAdd(AScale(RMul(cfg.kappa, tr[k]), gpe[k]), AScale(cfg.kappa, AMul(tpf[k], gpf[k])))
+       impl == ASumTo([s \in 1..K |-> LTimes(Hm[k][s], diag.delta[s])], K)
+   IN  ASub(ASub(AOf(plain), omega), impl)
+TrefR == [k \in 1..K |-> T(k)]
+TpP == [k \in 1..K |-> Tp(k)]
 Divergence == /\ pc = "divergence"
-              /\ LET va == VecAdv(diag.wf, DivFlux)
-                 IN  tend' = [vorticity |-> tend.vorticity, divergence |-> [k \in 1..K |->
-                        LET plain == PSub(PSub(PSub(CurlFlux(Psi(k), Chi(k), diag.absvor[k]), va[k]),
-                                               PScale(Rgas, DivFlux(PZero, S, Tp(k)))),
-                                          Lap(PAdd(PAdd(Kinetic(Psi(k), Chi(k)), OroP), PScale(RMul(Rgas, T(k)), S))))
-                        IN  ASub(AOf(plain), [a \in 0..K |-> Lap(GeoP(k)[a])])]]
+              /\ tend' = [vorticity |-> tend.vorticity, divergence |-> [k \in 1..K |-> DivTotal(TrefR, TpP, k)]]
               /\ pc' = "temperature" /\ UNCHANGED <<cfg, H, Hs, Hasfound, G, diag>>
 Temperature ==
   /\ pc = "temperature"
-  /\ LET tp == [k \in 1..K |-> Tp(k)]
-         tr == [k \in 1..K |-> T(k)]
-         vt == VAdvP(diag.wf, tp)
-         vr == VAdvR(diag.we, tr)
-         gpe == GPart(diag.g)
-         gpf == GPart([k \in 1..K |-> PAdd(diag.g[k], diag.delta[k])])
-     IN  tend' = [vorticity |-> tend.vorticity, divergence |-> tend.divergence,
-           temperature |-> [k \in 1..K |->
-              LET plain == PAdd(PAdd(PNeg(Advect(Psi(k), Chi(k), Tp(k))), PAdd(vt[k], vr[k])),
-                                PScale(cfg.kappa, PAdd(PScale(T(k), diag.g[k]), PMul(Tp(k), diag.g[k]))))
-                  omega == AAdd(AScale(RMul(cfg.kappa, T(k)), gpe[k]), AScale(cfg.kappa, AMul(Tp(k), gpf[k])))
-                  impl == ASumTo([s \in 1..K |-> LTimes(H[k][s], diag.delta[s])], K)
-              IN  ASub(ASub(AOf(plain), omega), impl)]]
+  /\ tend' = [vorticity |-> tend.vorticity, divergence |-> tend.divergence,
+              temperature |-> [k \in 1..K |-> TempTotal(TrefR, TpP, H, k)]]
   /\ pc' = "rest" /\ UNCHANGED <<cfg, H, Hs, Hasfound, G, diag>>
 Rest == /\ pc = "rest"
         /\ tend' = [vorticity |-> tend.vorticity, divergence |-> tend.divergence, temperature |-> tend.temperature,
@@ -178,6 +182,24 @@ SurfaceSigmaDot == Finished =>
 RestingIsothermal ==
    (Finished /\ \A k \in 1..K : Psi(k) = PZero /\ Chi(k) = PZero /\ Tp(k) = PZero) /\ S = PZero /\ OroP = PZero =>
       \A k \in 1..K : tend.vorticity[k] = PZero /\ tend.divergence[k] = AZero /\ tend.temperature[k] = AZero
+
+(* C04 at design level on horizontally structured states: moving a level profile c from the deviation
+   into the reference temperature (T = tref + tp = (tref + c) + (tp - c)) changes neither the total
+   temperature nor the total divergence tendency.  H of the shifted profile is Durran's H with the
+   profile substituted (ImplicitSolve!HDense is linear in it). *)
+HOf(tr) == [r \in 1..K |-> [s \in 1..K |->
+   LET h0 == LScale(RDiv(RMul(cfg.kappa, tr[r]), DSig(r)),
+                    LAdd(LAtom(r, P(r - s)), IF r >= 2 THEN LAtom(r - 1, P(r - 1 - s)) ELSE LZero))
+       k0(q) == IF q >= 1 /\ q < K THEN RDiv(RSub(tr[q + 1], tr[q]), RAdd(DSig(q + 1), DSig(q))) ELSE Zero
+       kk(q) == IF q >= 1 /\ q < K THEN RMul(k0(q), RSub(P(q - s), Cum(q))) ELSE Zero
+   IN  LScale(DSig(s), LSub(h0, LConst(RAdd(kk(r), kk(r - 1)))))]]
+Shift == [k \in 1..K |-> R(2 * k - 1)]                         \* 1, 3 : not constant in the vertical
+HOfAgrees == Finished => HOf(TrefR) = H
+SplitFree == Finished =>
+   LET tr2 == [k \in 1..K |-> RAdd(TrefR[k], Shift[k])]
+       tp2 == [k \in 1..K |-> PSub(TpP[k], PConst(Shift[k]))]
+   IN  \A k \in 1..K : /\ TempTotal(tr2, tp2, HOf(tr2), k) = tend.temperature[k]
+                        /\ DivTotal(tr2, tp2, k) = tend.divergence[k]
 
 AJson(x) == [a \in 0..K |-> PJson(x[a])]
 ExportPoly == Finished => PrintT(<<"CASE", ToJson([
